@@ -20,11 +20,11 @@ From Fences Require Export Base.
 Inductive kind :=
 | KLeaf (valid : bool)
 | KDec (all : bool) (noop : bool)     (* noop: instance of NoOpDecision (matters for optimize) *)
-| KRef (name : nat).
+| KRef (name : list nat).      (* Reference.reference, a string (code points) *)
 
 Record node := mkNode {
   nkind : kind;
-  nid   : option nat;          (* Node.id: None, or a string (encoded as a number; 0 = '') *)
+  nid   : option (list nat);   (* Node.id: None, or a string (code points; [] = '') *)
   outs  : list nat;            (* targets of outgoing_transitions, in order *)
   ins   : list (nat * nat)     (* incoming_transitions: (source, outgoing_idx), in order *)
 }.
@@ -41,7 +41,7 @@ Definition leaf_is g (v : bool) n := match kind_of g n with KLeaf b => Bool.eqb 
 
 (* ---------- building graphs with the public API ---------- *)
 Inductive op :=
-| NewNode (k : kind) (id : option nat)       (* Leaf(...), Decision(...), Reference(...) *)
+| NewNode (k : kind) (id : option (list nat))       (* Leaf(...), Decision(...), Reference(...) *)
 | AddT (src tgt : nat).                      (* src.add_transition(tgt) *)
 
 Fixpoint upd_node (g : graph) (n : nat) (f : node -> node) : graph :=
